@@ -44,12 +44,33 @@ func decodeBytes(b []byte) interface{} {
 	return out
 }
 
+// withList adds the element structure of a list that pd marshals as ONE comma-joined JSON string
+// (typeutil.StringSlice): the JSON text alone cannot tell ["a","b,c"] from ["a","b","c"].
+func withList(v interface{}, name string, list []string) interface{} {
+	if m, ok := v.(map[string]interface{}); ok {
+		items := make([]interface{}, len(list))
+		for i, x := range list {
+			items[i] = x
+		}
+		m[name+"(items)"] = emptyToNull(items)
+	}
+	return v
+}
+
+func decodeRepl(c *config.ReplicationConfig) interface{} {
+	return withList(decode(c), "location-labels", c.LocationLabels)
+}
+
+func decodePD(c *config.PDServerConfig) interface{} {
+	return withList(decode(c), "runtime-services", c.RuntimeServices)
+}
+
 // servedSecs observes the configuration the server serves (Server.Get* after a call).
 func servedSecs(s *server.Server) secs {
 	return secs{
 		"schedule":         decode(s.GetScheduleConfig()),
-		"replication":      decode(s.GetReplicationConfig()),
-		"pd-server":        decode(s.GetPDServerConfig()),
+		"replication":      decodeRepl(s.GetReplicationConfig()),
+		"pd-server":        decodePD(s.GetPDServerConfig()),
 		"label-property":   decode(s.GetLabelProperty()),
 		"cluster-version":  decode(s.GetClusterVersion()),
 		"replication-mode": decode(s.GetReplicationModeConfig()),
@@ -60,8 +81,8 @@ func servedSecs(s *server.Server) secs {
 func optSecs(o *config.PersistOptions) secs {
 	return secs{
 		"schedule":         decode(o.GetScheduleConfig()),
-		"replication":      decode(o.GetReplicationConfig()),
-		"pd-server":        decode(o.GetPDServerConfig()),
+		"replication":      decodeRepl(o.GetReplicationConfig()),
+		"pd-server":        decodePD(o.GetPDServerConfig()),
 		"label-property":   decode(o.GetLabelPropertyConfig()),
 		"cluster-version":  decode(o.GetClusterVersion()),
 		"replication-mode": decode(o.GetReplicationModeConfig()),
@@ -325,6 +346,12 @@ func domainProblems(s *server.Server) (probs []string, ambiguous int) {
 	if rc.IsolationLevel != "" && !inList(rc.LocationLabels, rc.IsolationLevel) {
 		probs = append(probs, "isolation-level-not-a-location-label")
 	}
+	for _, l := range rc.LocationLabels {
+		if !legalLabelKey(l) {
+			probs = append(probs, "location-label-not-a-legal-label-key")
+			break
+		}
+	}
 	if s.GetPDServerConfig().FlowRoundByDigit < 0 {
 		probs = append(probs, "negative-flow-round-by-digit")
 	}
@@ -337,6 +364,26 @@ func domainProblems(s *server.Server) (probs []string, ambiguous int) {
 		}
 	}
 	return probs, ambiguous
+}
+
+// legalLabelKey: pd's documented label key format - "alphanumeric characters, '-', '_', '.' or '/',
+// and must start and end with an alphanumeric character. It can also contain an extra '$' at the
+// beginning." (location labels are label keys; they are stored joined by ',').
+func legalLabelKey(k string) bool {
+	k = strings.TrimPrefix(k, "$")
+	if k == "" {
+		return false
+	}
+	alnum := func(c byte) bool { return c >= '0' && c <= '9' || c >= 'a' && c <= 'z' || c >= 'A' && c <= 'Z' }
+	if !alnum(k[0]) || !alnum(k[len(k)-1]) {
+		return false
+	}
+	for i := 0; i < len(k); i++ {
+		if c := k[i]; !alnum(c) && c != '-' && c != '_' && c != '.' && c != '/' {
+			return false
+		}
+	}
+	return true
 }
 
 // cluster versions: "[v]MAJOR.MINOR.PATCH[-prerelease][+metadata]" (semantic versioning).
